@@ -46,6 +46,8 @@ Definition run_op (k : kb) (roots : list nat) (w : pworld) (op : sx) : pworld * 
   | L [A 8; i; b] =>  (* add_data on object i: stored as data (leaves) and as current bounds *)
       let s' := upd s (dnat i) (dbnd b) in
       (PW s' (upd (pw_leaves w) (dnat i) (dbnd b)) (pw_query w), L [estate n s'])
+  | L [A 10] =>  (* flush: every registered object back to UNKNOWN, stored data erased *)
+      (PW (fun _ => unknown) (fun _ => unknown) (pw_query w), L [estate n (fun _ => unknown)])
   | L [A 9] =>  (* has_contradiction over all registered objects (= reachable from the roots) *)
       (w, L [ebool (has_contradiction k (postorder k roots) s)])
   | _ => (w, bad)
